@@ -30,7 +30,7 @@ def harness_module_file(harness):
 def extract_playback_test(text):
     """Pick the generated unit test of a failing *assertion* (Kani also prints one per cover)."""
     best = None
-    for m in re.finditer(r"/// Check for `(\w+)`: ([^\n]*)\n\s*(#\[test\]\s*\n\s*fn (kani_concrete_playback_\w+)\(\)\s*\{.*?\n\})",
+    for m in re.finditer(r"/// Check for `(\w+)`: ([^\n]*)\n(?:\s*///[^\n]*\n)*\s*(#\[test\]\s*\n\s*fn (kani_concrete_playback_\w+)\(\)\s*\{.*?\n\})",
                          text, re.S):
         kind = m.group(1)
         cand = (m.group(4), m.group(3))
